@@ -1,7 +1,10 @@
 -- Root of the `ChessVerif` library: models, specifications, proofs (built by setup.sh).
+import ChessVerif.Props.C08
+import ChessVerif.Props.C09
+import ChessVerif.Props.C04.Keys
 import ChessVerif.Props.C14
 import ChessVerif.Props.C16
 import ChessVerif.Props.C18
 import ChessVerif.Props.C19
 import ChessVerif.Props.C20
-import ChessVerif.Drv.Small
+import ChessVerif.Drv.LookupH
